@@ -605,6 +605,46 @@ def _target_of(kwargs):
     return out
 
 
+# ---------------------------------------------------------------------- constants <-> scenario records
+SC_FIELDS = (("hosts", "Hosts"), ("ring0", "Ring0"), ("targets", "Targets"), ("func", "FuncTargets"), ("kinds", "Kinds"),
+             ("topo", "TopoOn"), ("schema", "SchemaOn"), ("ev", "MaxEvents"), ("nring", "MaxRing"), ("faults", "MaxFaults"),
+             ("beats", "MaxBeats"))
+
+
+def scenario_tla(consts):
+    """One element of the specification's constant Scenarios, as TLA+ text."""
+    from harness.tlaval import to_tla
+    parts = []
+    for f, k in SC_FIELDS:
+        v = consts[k]
+        if k in ("TopoOn", "SchemaOn"):
+            v = _truth(v)
+        parts.append("%s |-> %s" % (f, to_tla(set(v) if isinstance(v, (set, frozenset, list, tuple)) else v)))
+    return "[" + ", ".join(parts) + "]"
+
+
+def tla_constants(scenarios, fixed, workdir, base="ControlEvents", tag="MC"):
+    """A TLC cfg cannot spell a set of records: the configurations (list of consts dicts) go into a generated module
+    <workdir>/<tag>_<base>.tla that extends `base`.  Returns (module path, CONSTANTS for tlc.write_cfg)."""
+    import os
+    name = "%s_%s" % (tag, base)
+    path = os.path.join(workdir, name + ".tla")
+    with open(path, "w") as f:
+        f.write("---- MODULE %s ----\nEXTENDS %s\nScenariosDef == {%s}\n====\n"
+                % (name, base, ",\n                 ".join(scenario_tla(c) for c in scenarios)))
+    return path, {"Scenarios": "<- ScenariosDef", "Fixed": set(fixed)}
+
+
+def consts_of(sc, fixed=()):
+    """The scenario record of a TLC state -> consts dict."""
+    out = {}
+    for f, k in SC_FIELDS:
+        v = sc[f]
+        out[k] = set(v) if isinstance(v, (set, frozenset, tuple, list)) else v
+    out["Fixed"] = set(fixed)
+    return out
+
+
 # ---------------------------------------------------------------------- spec state -> projection shape
 def _bag(v, conv):
     if isinstance(v, tuple):
@@ -620,9 +660,9 @@ def _fn(v, keys):
     return dict(v)
 
 
-def spec_view(state, consts):
+def spec_view(state, consts=None):
     cs = state["cs"]
-    hosts = sorted(consts["Hosts"])
+    hosts = sorted(state["sc"]["hosts"] if consts is None else consts["Hosts"])
     rcs = _bag(cs["rcs"], thread_tuple)
     ctl = (cs["ctl"]["h"], cs["ctl"]["st"])
     nopen = (1 if ctl[1] == "open" else 0) + sum(n for r, n in rcs.items() if r[3] != 0)
